@@ -26,11 +26,11 @@ func cn(t string) string {
 	return t
 }
 
-var values = []string{"int", "string", "array", "U", "V", "float", "bool", "null", "numstr", "SubU", "zero", "emptystr"}
+var values = []string{"int", "string", "array", "U", "V", "float", "bool", "null", "numstr", "SubU", "zero", "emptystr", "DeepU"}
 
 // (float, bool, null, a numeric string, an object of a subclass, 0 and "": the values at the edges of "is of type A")
 var valueExpr = map[string]string{"int": "7", "string": `"s"`, "array": "[1]", "U": "new U()", "V": "new V()",
-	"float": "1.5", "bool": "true", "null": "null", "numstr": `"7"`, "SubU": "new SubU()", "zero": "0", "emptystr": `""`}
+	"DeepU": "new D40()", "float": "1.5", "bool": "true", "null": "null", "numstr": `"7"`, "SubU": "new SubU()", "zero": "0", "emptystr": `""`}
 
 // Op: instantiate a generic class (I) or write a typed member of a live instance (W).
 type Op struct {
@@ -271,6 +271,46 @@ const prelude = `<?php
 class U { public $n = 1; }
 class V { public $n = 2; }
 class SubU extends U { public $m = 3; }
+class D1 extends U { }
+class D2 extends D1 { }
+class D3 extends D2 { }
+class D4 extends D3 { }
+class D5 extends D4 { }
+class D6 extends D5 { }
+class D7 extends D6 { }
+class D8 extends D7 { }
+class D9 extends D8 { }
+class D10 extends D9 { }
+class D11 extends D10 { }
+class D12 extends D11 { }
+class D13 extends D12 { }
+class D14 extends D13 { }
+class D15 extends D14 { }
+class D16 extends D15 { }
+class D17 extends D16 { }
+class D18 extends D17 { }
+class D19 extends D18 { }
+class D20 extends D19 { }
+class D21 extends D20 { }
+class D22 extends D21 { }
+class D23 extends D22 { }
+class D24 extends D23 { }
+class D25 extends D24 { }
+class D26 extends D25 { }
+class D27 extends D26 { }
+class D28 extends D27 { }
+class D29 extends D28 { }
+class D30 extends D29 { }
+class D31 extends D30 { }
+class D32 extends D31 { }
+class D33 extends D32 { }
+class D34 extends D33 { }
+class D35 extends D34 { }
+class D36 extends D35 { }
+class D37 extends D36 { }
+class D38 extends D37 { }
+class D39 extends D38 { }
+class D40 extends D39 { }
 class G5<T> {
   public T $p;
   public function make() { return new T(); }
@@ -605,7 +645,7 @@ func isOf(t, val string) bool {
 	case "array":
 		return val == "array"
 	case "U":
-		return val == "U" || val == "SubU"
+		return val == "U" || val == "SubU" || val == "DeepU" // (DeepU: an object 40 `extends` levels below U)
 	case "V":
 		return val == "V"
 	case "SubU":
